@@ -324,6 +324,13 @@ def masked_index_spaces(rep, M, rid):
             continue
         ivar = norm(lp.target.elts[0])
         for x in ast.walk(lp):
+            # the converse confusion: a cell-axis number (counter translated through np.where(pbc)[0]) indexing an array over the periodic vectors
+            if isinstance(x, ast.Subscript) and isinstance(x.value, ast.Name) and x.value.id in masked and isinstance(x.slice, ast.Subscript) \
+                    and isinstance(x.slice.value, ast.Name) and x.slice.value.id in axis_maps and norm(x.slice.slice) == ivar:
+                n += 1
+                rep.violation(rid, f"_find_proto_cell: `{norm(x)}`", f"`{norm(x.slice)}` is a cell-axis number (0..2) but indexes `{x.value.id}`, which has one entry per *periodic* "
+                              f"cell vector (cell[{masked[x.value.id]}]): with two periodic directions and the vacuum along a or b the index is out of range (IndexError escapes "
+                              "from get_clusters / classify), with one it reads the entry of another vector", M.where(fq, x))
             if isinstance(x, ast.Subscript) and norm(x.slice) == ivar and isinstance(x.value, ast.Name):
                 n += 1
                 if x.value.id in masked:
@@ -543,6 +550,7 @@ def run(rep, ctx):
         r04_3(rep, M, "R04.3")
         factors_times_cell(rep, M, "R04.3")
         both_directions_alike(rep, M, "R04.3")
+        image_labels_add(rep, M, "R04.3")
     rep.rule("R04.4", "a layered cell found as 3D keeps its two thick vectors, gets the normal as third, is periodic in (a, b) and is minimised along the last axis")
     with rep.guard("R04.4"):
         r04_4(rep, M, "R04.4")
@@ -558,6 +566,14 @@ def run(rep, ctx):
     with rep.guard("R04.6"):
         _sh.normal_form(rep, M, "R04.6")
         r04_flag(rep, M, "R04.6")
+    rep.rule("R04.14", "a monolayer's prototype cell goes through the 2D branch of the conventional cell: normalisation steps on every path, the non-periodic axis "
+                       "located by magnitude in spglib's transformation matrix whatever the orientation of the cell's basis (shared with C11)")
+    with rep.guard("R04.14"):
+        from . import c11 as _c11
+        _obj, _br = _c11.r11_1(rep, M, "R04.14")
+        if _obj is not None:
+            _c11.r11_2(rep, M, "R04.14", _obj, _br)
+    rep.floor("R04.14", 8)
     rep.rule("R04.7", "every tabulated letter permutation is the bijection its normalizer induces (the same material described from another origin gets the same letters)")
     TO.norm_perm(rep, ctx.tables, "R04.7")
     rep.rule("R04.9", "the structure is searched on a working copy whose atoms are inside the cell: atoms outside along a non-periodic axis always trigger "
@@ -763,3 +779,35 @@ def both_directions_alike(rep, M, rid):
                           f"private names ({len(a.body)} against {len(b.body)} statements): a neighbour found in one direction is not entered into the same lists as a neighbour "
                           "found in the other, so the periodicity graph loses its backward (or forward) edges, sub-lattice graphs shrink below the size filter and the "
                           "prototype cell loses whole sub-lattices", M.where(fq, b))
+
+
+# ----------------------------------------------------------------------------- image label of a found atom = label of the seed + offset found
+def image_labels_add(rep, M, rid):
+    """both prototype-cell builders label an atom found through a periodic image with (image label of the seed) + (offset at which it was found);
+    the labels are compared with the nodes of the periodicity graph, which were built with the same sum - a difference mirrors the label and a basis
+    atom found through an image no longer matches its own occurrences"""
+    n = 0
+    for fq in (PF + "._find_proto_cell_3d", PF + "._find_proto_cell_2d"):
+        fn = M.func(fq)
+        for lp in [x for x in ast.walk(fn) if isinstance(x, ast.For) and isinstance(x.target, ast.Name)]:
+            var = lp.target.id
+            for st in lp.body:
+                if not (isinstance(st, ast.Assign) and isinstance(st.value, ast.Call) and isinstance(st.value.func, ast.Name) and st.value.func.id == "tuple"
+                        and st.value.args and isinstance(st.value.args[0], ast.BinOp)):
+                    continue
+                b = st.value.args[0]
+                if not any(isinstance(x, ast.Name) and x.id == var for x in ast.walk(b)):
+                    continue
+                appended = any(isinstance(c, ast.Call) and isinstance(c.func, ast.Attribute) and c.func.attr == "append" and c.args and norm(c.args[0]) == norm(st.targets[0])
+                               for s2 in lp.body for c in ast.walk(s2))
+                if not appended:
+                    continue
+                n += 1
+                if isinstance(b.op, ast.Add):
+                    rep.ok(rid, f"{fq.split('.')[-1]}: `{norm(st)[:60]}` adds the offset to the seed's image label")
+                else:
+                    rep.violation(rid, f"{fq.split('.')[-1]}: `{norm(st)[:60]}`", f"the image label of a found atom is not seed label + offset (`{type(b.op).__name__}`): the label is "
+                                  "mirrored, so an atom that was found through a periodic image (sheet or slab straddling a cell face) never matches the nodes of the periodicity "
+                                  "graph, loses its occurrences and is dropped from the prototype cell (e.g. `MoS` instead of `MoS2`)", M.where(fq, st))
+    if n < 2:
+        raise AnalysisError(f"image labels of found atoms recognised at {n} site(s); both prototype-cell builders have one")
